@@ -24,6 +24,7 @@ import (
 	"go.opentelemetry.io/otel"
 	"go.opentelemetry.io/otel/attribute"
 
+	"github.com/dgraph-io/badger/v4/vhook"
 	"github.com/dgraph-io/badger/v4/y"
 	"github.com/dgraph-io/ristretto/v2/z"
 )
@@ -854,6 +855,7 @@ func (vlog *valueLog) write(reqs []*request) error {
 
 		start := int(endOffset - n)
 		y.AssertTrue(copy(curlf.Data[start:], buf.Bytes()) == int(n))
+		vhook.IO("mwrite-vlog", curlf.path, int64(start), int64(n))
 
 		curlf.size.Store(endOffset)
 		return nil
